@@ -31,7 +31,11 @@ def tokenizer(name):
 
 
 def ed(e):
-    return f"{e.reporter.short_name}|{e.short_name}"
+    return f"{e.reporter.short_name}|{e.reporter.name}|{e.short_name}|{e.start.year if e.start else ''}"
+
+
+def ed_years(e):
+    return [e.start.year if e.start else -1, e.end.year if e.end else -1]
 
 
 def proj(c, idx=None):
@@ -136,4 +140,42 @@ def run_filter_lists(payload):
         except Exception as ex:  # noqa: BLE001
             out["raised"] = f"{type(ex).__name__}: {ex}"
         res.append(out)
+    return res
+
+
+def edition_strings(payload):
+    """reporter strings with their candidate editions, read from the tokenizer's lookup"""
+    from eyecite.tokenizers import EDITIONS_LOOKUP
+    out = []
+    for name, eds in EDITIONS_LOOKUP.items():
+        uniq = {ed(e): ed_years(e) for e in eds}
+        out.append({"string": name, "eds": uniq, "sources": sorted({e.reporter.source for e in eds})})
+    return out
+
+
+def run_editions(payload):
+    """items: {text}; default and remove_ambiguous extraction, edition table, today"""
+    from datetime import date
+    res = []
+    for it in payload["items"]:
+        text = it["text"]
+        o = {"text": text, "today": date.today().year, "raised": "", "def": [], "ra": [], "eds": {}}
+        try:
+            d = extract(text, "aho")
+            r = extract(text, "aho", remove_ambiguous=True)
+            for c in d:
+                for e in getattr(c, "all_editions", ()):
+                    o["eds"][ed(e)] = ed_years(e)
+            def slim(c, i):
+                p = proj(c, i)
+                for k in ("groups", "gnone", "mnone", "mt"):
+                    p.pop(k, None)
+                my = p.pop("meta").get("year", "")
+                p["myear4"] = int(my[:4]) if my[:4].isdigit() and len(my) >= 4 else -2
+                return p
+            o["def"] = [slim(c, i + 1) for i, c in enumerate(d)]
+            o["ra"] = [slim(c, i + 1) for i, c in enumerate(r)]
+        except Exception as ex:  # noqa: BLE001
+            o["raised"] = f"{type(ex).__name__}: {ex}"
+        res.append(o)
     return res
